@@ -15,7 +15,8 @@ Import ListNotations.
 Open Scope N_scope.
 
 (* For EVERY well-formed operation history (any number of create / append / multi-append /
-   delete_files / expire / delete_snapshot commits, any number of files, any contents), EVERY prefix
+   delete_files / expire / delete_snapshot commits and rolled-back transactions, any number of files,
+   any contents), EVERY prefix
    of its OS-call trace and EVERY power-loss outcome: if a pointer survives and names version v, then
    every file reachable from v is durably present with exactly its intended content (and that is also
    what running processes saw under that name) -- not missing, not empty, not partial. *)
@@ -31,9 +32,9 @@ Print Assumptions C16_durable_prefix.
 (* Once the last call of a commit's pointer publish has returned (the commit is acknowledged), and
    for as long as no later commit starts, every power-loss outcome has the pointer naming that
    commit's metadata file (whose reachable files are whole by C16_durable_prefix). *)
-Theorem C16_acked_durable : forall ops c, wf (ops ++ [c]) = true ->
+Theorem C16_acked_durable : forall ops c, wf (ops ++ [OCommit c]) = true ->
   forall n es, (length (trace_of ops ++ commit_body c) <= n)%nat ->
-  calls_of es = firstn n (trace_of (ops ++ [c])) ->
+  calls_of es = firstn n (trace_of (ops ++ [OCommit c])) ->
   exists s', run fs0 es = Some s'
     /\ pointer (power_loss s') = Some (pf_path (c_meta c)) /\ pointer (vol s') = Some (pf_path (c_meta c)).
 Proof. exact acked_durable. Qed.
@@ -81,15 +82,17 @@ Definition ex_append : commit :=
            [mkItem (mkPub (P 2 4) [Raw 75]) (mkPub (P 4 5) [Raw 1602; Ref (P 3 3)])]
            [mkItem (mkPub (P 2 6) [Raw 95]) (mkPub (P 4 7) [Raw 829; Ref (P 4 5)])]
            (mkPub (P 1 8) [Raw 1587; Ref (P 4 7)]) [Raw 25; Ref (P 1 8)].
-Definition ex_ops := [ex_create; ex_append].
+(* ... and a transaction that wrote one data file and was rolled back *)
+Definition ex_abort : list item := [mkItem (mkPub (P 2 9) [Raw 51]) (mkPub (P 3 10) [Raw 700])].
+Definition ex_ops := [OCommit ex_create; OCommit ex_append; OAbort ex_abort].
 
-(* a schedule: all calls up to and including the pointer's Rename of the second commit (49 of 53
+(* a schedule: all calls up to and including the pointer's Rename of the second commit (49 of 65
    calls), with that rename written back early and nothing else *)
 Definition ex_sched : list event := map Call (firstn 49 (trace_of ex_ops)) ++ [Bg (PEntry PTR)].
 
 Example C16_nonvacuous :
   wf ex_ops = true
-  /\ length (trace_of ex_ops) = 53%nat
+  /\ length (trace_of ex_ops) = 65%nat
   /\ calls_of ex_sched = firstn 49 (trace_of ex_ops)
   /\ (exists s', run fs0 ex_sched = Some s'
         /\ pointer (power_loss s') = Some (P 1 8)              (* the NEW version survived, early *)
